@@ -376,15 +376,25 @@ func (ev *evaluator) eval(e Expr) *Val {
 		// assumptions produced while evaluating the body (range facts of heap reads etc.) must not leak bound variables
 		na := len(st.assumes)
 		body := ev.eval(x.Body)
+		var pats []string
+		for _, te := range x.Triggers {
+			pats = append(pats, ev.eval(te).Tm)
+		}
 		if len(st.assumes) > na {
 			st.assumes = st.assumes[:na]
 		}
 		ev.bound = saved
 		g := and(guards...)
-		if x.Forall {
-			return boolVal("(forall (" + strings.Join(decl, " ") + ") " + implies(g, body.Tm) + ")")
+		wrap := func(b string) string {
+			if len(pats) == 0 {
+				return b
+			}
+			return "(! " + b + " :pattern (" + strings.Join(pats, " ") + "))"
 		}
-		return boolVal("(exists (" + strings.Join(decl, " ") + ") " + and(g, body.Tm) + ")")
+		if x.Forall {
+			return boolVal("(forall (" + strings.Join(decl, " ") + ") " + wrap(implies(g, body.Tm)) + ")")
+		}
+		return boolVal("(exists (" + strings.Join(decl, " ") + ") " + wrap(and(g, body.Tm)) + ")")
 	case EIndex:
 		base := ev.eval(x.X)
 		idx := ev.eval(x.I)
@@ -396,7 +406,7 @@ func (ev *evaluator) eval(e Expr) *Val {
 		case SSlice:
 			et := base.T.Underlying().(*types.Slice).Elem()
 			es := sortOf(et)
-			abs := "(+ (s_off " + base.Tm + ") " + idx.Tm + ")"
+			abs := "(sidx (s_off " + base.Tm + ") " + idx.Tm + ")"
 			if es == "" {
 				return &Val{T: types.NewPointer(et), S: SInt, Tm: "(fld_addr (s_base " + base.Tm + ") (- (- 1) " + abs + "))"}
 			}
